@@ -87,6 +87,9 @@ func onlyLoopGuards(b *ssa.BasicBlock) (bool, *Guard) {
 			break
 		}
 		if !isLoopGuard(g) {
+			if nonEmptyOfInnerLoop(g, gs[:i]) {
+				continue // `if len(xs) == 0 { continue }` before `for … range xs`: skips no element of xs
+			}
 			gg := g
 			return false, &gg
 		}
@@ -277,4 +280,43 @@ func indexesOwn(coll, idx ssa.Value) bool {
 		return sameValue(c, coll)
 	}
 	return isRangeIndex(idx)
+}
+
+// nonEmptyOfInnerLoop: g says that len(X) is not zero, and one of the inner loop tests walks X.
+func nonEmptyOfInnerLoop(g Guard, inner []Guard) bool {
+	bo, ok := g.Cond.(*ssa.BinOp)
+	if !ok {
+		return false
+	}
+	k, isK := constInt(bo.Y)
+	lc, isCall := bo.X.(*ssa.Call)
+	if !isK || !isCall || len(lc.Call.Args) != 1 {
+		return false
+	}
+	if bi, isB := lc.Call.Value.(*ssa.Builtin); !isB || bi.Name() != "len" {
+		return false
+	}
+	nonEmpty := false
+	switch {
+	case g.Pol && ((bo.Op == token.GTR && k == 0) || (bo.Op == token.NEQ && k == 0) || (bo.Op == token.GEQ && k == 1)):
+		nonEmpty = true
+	case !g.Pol && ((bo.Op == token.EQL && k == 0) || (bo.Op == token.LSS && k == 1) || (bo.Op == token.LEQ && k == 0)):
+		nonEmpty = true
+	}
+	if !nonEmpty {
+		return false
+	}
+	for _, ig := range inner {
+		if !isLoopGuard(ig) {
+			continue
+		}
+		if ib, isB := ig.Cond.(*ssa.BinOp); isB {
+			if ic, isC := ib.Y.(*ssa.Call); isC && len(ic.Call.Args) == 1 {
+				if ic.Call.Args[0] == lc.Call.Args[0] || sameValue(ic.Call.Args[0], lc.Call.Args[0]) {
+					return true
+				}
+			}
+		}
+	}
+	return false
 }
